@@ -577,6 +577,9 @@ func (a *asset) generateTimelineEntriesFromRef(refSE segEntries, repID string) s
 	}
 
 	sampleDur := uint64(rep.sampleDur())
+	if rep.ConstantSampleDuration != nil && *rep.ConstantSampleDuration != 0 {
+		sampleDur = uint64(*rep.ConstantSampleDuration) // the frame duration the segments are cut with (createAudioSeg)
+	}
 	timeScale := uint64(rep.MediaTimescale)
 
 	refTimescale := uint64(refSE.mediaTimescale)
